@@ -525,3 +525,20 @@ func describe(b *strings.Builder, v reflect.Value, withType bool) {
 		}
 	}
 }
+
+// Describe2 is Describe that tolerates values outside the JSON domain (funcs, chans, structs).
+func Describe2(x any) (s string) {
+	defer func() {
+		if recover() != nil {
+			s = fmt.Sprintf("%T", x)
+		}
+	}()
+	v := reflect.ValueOf(x)
+	if v.IsValid() {
+		switch v.Kind() {
+		case reflect.Func, reflect.Chan, reflect.Complex64, reflect.Complex128, reflect.Struct:
+			return fmt.Sprintf("%T", x)
+		}
+	}
+	return fmt.Sprintf("%T:", x) + Describe(x)
+}
